@@ -132,14 +132,33 @@ def kill (s : State) : State := { s with fds := [] }
 /-- bytes a (new) process reads at name `n` -/
 def load (s : State) (n : Name) : Option Bytes := (s.vdir n).map (fun i => (s.ino i).vol)
 
-/-- executable crash image constructor (used by the driver to enumerate representatives) -/
-def crashImage (s : State) (sub : List DirOp) (g : Ino → Bytes) : State :=
-  let d := applyAll s.ddir sub
-  { ino := fun i => ⟨(s.ino i).dur ++ g i, []⟩, next := s.next, vdir := d, ddir := d, pending := [], fds := [] }
+/-- order-preserving selection of a sub-list by a mask (missing mask entries = dropped) -/
+def pick {α : Type} : List Bool → List α → List α
+  | [], _ => []
+  | _, [] => []
+  | b :: bs, x :: xs => if b then x :: pick bs xs else pick bs xs
 
-theorem crashImage_crash (s : State) (sub : List DirOp) (g : Ino → Bytes)
-    (hs : sub.Sublist s.pending) (hg : ∀ i, (g i).length ≤ (s.ino i).pend.length) :
-    Crash s (crashImage s sub g) :=
-  ⟨sub, hs, fun _ => rfl, fun _ => rfl, rfl, rfl, rfl, fun i => ⟨g i, rfl, hg i⟩⟩
+theorem pick_sublist {α : Type} (mask : List Bool) (l : List α) : (pick mask l).Sublist l := by
+  induction l generalizing mask with
+  | nil => cases mask <;> exact List.Sublist.slnil
+  | cons x xs ih =>
+    cases mask with
+    | nil => exact List.nil_sublist _
+    | cons b bs =>
+      cases b
+      · exact (ih bs).cons x
+      · exact (ih bs).cons_cons x
+
+/-- executable crash-image constructor (used by the driver to enumerate representatives and by the
+    examples): the pending operations selected by `mask` are applied; inode `i` keeps its durable
+    bytes followed by the bytes `g i`, clipped to the length of its un-synced remainder. -/
+def crashImage (s : State) (mask : List Bool) (g : Ino → Bytes) : State :=
+  let d := applyAll s.ddir (pick mask s.pending)
+  { ino := fun i => ⟨(s.ino i).dur ++ (g i).take (s.ino i).pend.length, []⟩,
+    next := s.next, vdir := d, ddir := d, pending := [], fds := [] }
+
+theorem crashImage_crash (s : State) (mask : List Bool) (g : Ino → Bytes) : Crash s (crashImage s mask g) :=
+  ⟨pick mask s.pending, pick_sublist _ _, fun _ => rfl, fun _ => rfl, rfl, rfl, rfl,
+    fun i => ⟨(g i).take (s.ino i).pend.length, rfl, by simp [List.length_take]; exact Nat.min_le_left _ _⟩⟩
 
 end Lungo.FS
